@@ -15,7 +15,7 @@
 -/
 import GormModel.Model.CallbackBuilder
 import GormModel.Gen.CallbackExecFacts
-namespace Gorm
+namespace Gorm.Reent
 
 /-- one registration call made from INSIDE a running callback: the record handed to `compile`, on the pipeline
     that is running (`other = false`) or on another pipeline of the same DB (`other = true`) -/
@@ -68,7 +68,7 @@ def execute (r : CbRepairs) (script : Script) (snapshot : List Nat) (st : ExecSt
 
 /-- `p.Execute(db)`, the loop over the compiled chain: the range expression `p.fns` is evaluated ONCE -/
 def World.execute (r : CbRepairs) (script : Script) (w : World) : ExecSt :=
-  Gorm.execute r script w.run.fns { w := w }
+  Reent.execute r script w.run.fns { w := w }
 
 /-- NOT the code of the pinned tree: `for i := 0; i < len(p.fns); i++ { p.fns[i](db) }` (the field is read again on
     every step).  `fuel` bounds the number of steps: a callback that registers a new callback behind itself on
@@ -81,7 +81,7 @@ def executeIndexed (r : CbRepairs) (script : Script) : Nat â†’ Nat â†’ ExecSt â†
     | some h => executeIndexed r script fuel (i+1) (st.fire r script h)
 
 def World.executeIndexed (r : CbRepairs) (script : Script) (fuel : Nat) (w : World) : ExecSt :=
-  Gorm.executeIndexed r script fuel 0 { w := w }
+  Reent.executeIndexed r script fuel 0 { w := w }
 
 /-- all registration calls a run makes: those of the handlers of the snapshot, in firing order -/
 def effectsOf (script : Script) (snapshot : List Nat) : List Eff := snapshot.flatMap script
@@ -102,4 +102,4 @@ def World.executeMany (r : CbRepairs) : World â†’ List Script â†’ World Ã— List 
 /-- the loop of the tree under check is the snapshot loop (regenerated) -/
 def treeExecuteIsSnapshot : Bool := Gen.executeLoop == "range-snapshot"
 
-end Gorm
+end Gorm.Reent
